@@ -346,6 +346,16 @@ func (r *Run) Finish() {
 	}
 	fmt.Printf("%s tier=%s seed=%d: evaluations=%d distinct_classes=%d violations=%d known=%d inconclusive=%d wall=%.1fs\n",
 		r.ID, r.Tier, r.Seed, r.evals, distinct, r.violations, len(r.known), len(r.inconclusive), time.Since(r.start).Seconds())
+	// deferred clean-ups of the driver do not run past os.Exit: remove the scratch root here
+	if d := os.Getenv("VERIF_SBX_BASE"); d != "" && strings.Contains(filepath.Base(d), "verif-scratch-") {
+		filepath.Walk(d, func(p string, fi os.FileInfo, err error) error {
+			if err == nil && fi.IsDir() && fi.Mode().Perm()&0o700 != 0o700 {
+				os.Chmod(p, 0o755)
+			}
+			return nil
+		})
+		os.RemoveAll(d)
+	}
 	if r.violations > 0 {
 		os.Exit(1)
 	}
